@@ -158,6 +158,10 @@ func runC11(w *World, r *Report) {
 		}
 		for _, fw := range callsTo2(fn, "."+row.forward) {
 			_, a := callArgs(fw)
+			if len(a) < 3 {
+				r.bad("forward-after-accept", row.handler+"/forwards-item-and-set", lineOf(w, fw), "the forward helper receives (ctx, message, verified set)", fmt.Sprintf("called with %d arguments: the skip decision no longer receives the verified set", len(a)))
+				continue
+			}
 			r.check(behind(fw, accept), "forward-after-accept", row.handler+"/forward-after-acceptance", lineOf(w, fw), "forward only behind: "+acceptDesc, "forward reachable without crossing the acceptance success edge")
 			// forwards the very message and the verified set
 			r.check(pathOf(a[1]) == row.msg && sameVal(a[2], set), "forward-after-accept", row.handler+"/forwards-item-and-set", lineOf(w, fw), "the processed message is forwarded with the verified set", fmt.Sprintf("forwarding (%s, %s)", pathOf(a[1]), pathOf(a[2])))
